@@ -1,3 +1,4 @@
+#![cfg_attr(kani, feature(allocator_api))]
 use serde_json::Value;
 use std::time::{SystemTime, UNIX_EPOCH};
 use uuid::Uuid;
